@@ -7,7 +7,7 @@ ROOT = os.path.dirname(os.path.dirname(os.path.abspath(__file__)))
 TECH = ("bounded model checking of the compiled Rust code: Kani 0.68 -> CBMC 6.11 -> SAT (cadical); symbolic inputs "
         "via kani::any(), unwinding assertions on, counterexamples replayed natively with cargo kani playback")
 
-TECH2 = TECH + "; for C01, C02, C03, C05, C11, C12, C13 additionally path-forking symbolic execution of rustc's MIR with z3 (mirsym)"
+TECH2 = TECH + "; for C01, C02, C03, C04, C05, C11, C12, C13 additionally path-forking symbolic execution of rustc's MIR with z3 (mirsym)"
 
 CLAIMED = {
     # id: (level text, level_note, design_ref)
@@ -22,7 +22,8 @@ CLAIMED = {
         "overflow, out-of-bounds and unwinding assertions are all checked by the solver; hangs are confirmed natively. mirsym "
         "(MIR symbolic execution): lex_hex_number on '0x' + 1, 8, 16, 17 (18, 24) symbolic hex digits cannot panic at the u64 "
         "boundary of from_str_radix, and lex_url on a concrete URL prefix with 2 (3) fully symbolic characters at the end of its path, "
-        "credential and port parts cannot panic.",
+        "credential and port parts cannot panic; the comment wrappers Unit/Go/JsDoc::parse (stub inner parser) cannot panic on any "
+        "comment text of 3-4 (5-6) symbolic characters (kernel shared with C04).",
         "Kernels only. Outside the claim: Markdown/HTML/Typst/Literate-Haskell/tree-sitter front-ends, Document::parse and its "
         "condensing passes (Kani ICE on thread_local / memory), dictionary-dependent rules, lex_number's f64 parsing, "
         "mark_inline_tags and PatternMap (Kani limitations, DESIGN.md). Unicode table look-ups are replaced by nondeterministic stubs "
@@ -57,6 +58,17 @@ CLAIMED = {
         "Edit primitive, span plumbing and the cache rebasing of LintGroup::lint (with stub rules). 'Each reported lint's span lies in "
         "the text' is NOT decided for the ~290 real rules.",
         "DESIGN.md section 4, C03"),
+    "C04": (
+        "Narrow kernel decided by MIR symbolic execution (mirsym, z3): the comment wrappers of harper-comments - Unit::parse, "
+        "Go::parse, JsDoc::parse with without_initiators, parse_line, mark_inline_tags - executed on every comment text of 3-4 (5-6) "
+        "fully symbolic characters with the inner (Markdown) parser replaced by a stub that returns one word token over exactly the "
+        "slice it is handed: no panic; every word token of the result lies exactly on the characters the inner parser saw (true "
+        "offset after stripping leaders, splitting lines, skipping go: directives); inserted Newline tokens are one character wide "
+        "and sit on line feeds; tokens are ordered and inside the comment.",
+        "Everything that decides WHICH characters are prose is outside: tree-sitter comment extraction and byte->char conversion "
+        "(harper-tree-sitter, C FFI), the masker and ignore markers, Markdown (pulldown-cmark), HTML, Typst, Literate Haskell, "
+        "git-commit parser, JavaDoc (HtmlParser). Only the re-offsetting arithmetic of three wrappers is decided, on short comments.",
+        "DESIGN.md section 4, C04"),
     "C05": (
         "Kernel of the property's central mechanism, decided by MIR symbolic execution (mirsym, z3): the real "
         "<LintGroup as Linter>::lint - clause iteration, TokenStringExt::span, Document::get_span_content, the cache key, "
@@ -132,9 +144,6 @@ CLAIMED = {
 }
 
 NOT_APPLICABLE = {
-    "C04": "which characters are prose is decided by tree-sitter (C, FFI), pulldown-cmark and typst-syntax; every harper-side offset "
-           "kernel probed (byte_spans_to_char_spans, LiterateHaskellMasker, GitCommitParser/Unit with a stub parser, "
-           "Mask::merge_whitespace_sep) ran out of memory or time under CBMC; not encodable within reach",
     "C06": "quantifies over the 130k-word curated dictionary (affix expansion, hashbrown, FST); SpellCheck::new builds a 10,000-entry "
            "LRU with RandomState before any decision",
     "C07": "async tokio file I/O, crash points and server commands; no file-system/async model in the engine and a hand model would "
@@ -169,7 +178,7 @@ def main():
                 "engine": "kani-cbmc",
                 "level_claimed": {"category": "model_checking", "text": text, "design_ref": ref},
                 "level_note": note,
-                "technique": TECH2 if pid in ("C13", "C02", "C01", "C03", "C05", "C11", "C12") else TECH,
+                "technique": TECH2 if pid in ("C13", "C02", "C01", "C03", "C04", "C05", "C11", "C12") else TECH,
             })
         elif pid not in na:
             na[pid] = "check not built yet (work in progress; see DESIGN.md)"
@@ -193,7 +202,7 @@ def main():
                               "classifies results, replays counterexamples natively and writes evidence",
         }, {
             "name": "mirsym", "path": "/verif/mirsym",
-            "serves_properties": ["C01", "C02", "C03", "C05", "C11", "C12", "C13"],
+            "serves_properties": ["C01", "C02", "C03", "C04", "C05", "C11", "C12", "C13"],
             "kind_free_text": "path-forking symbolic executor for rustc's textual MIR (dumped from /repo on every run with the "
                               "nightly toolchain), z3 4.x via python3-vt decides branch feasibility and post-conditions; std calls "
                               "are dispatched to hand-written contracts (models.py)",
